@@ -145,6 +145,50 @@ def run(ctx):
             if not okk or n_out != sum(base.values()):
                 bad("`%s`: not exactly one captured sequence per stack of `%s`" % (q[1], q[0]), {"query": q[1], "producer": q[0]})
             nontrivial.add(q[1])
+    # every ?w / !w pair of the vocabulary (DWARF tags, attributes, forms, location operators in long
+    # and short spelling, ?root, ?haschildren ...) on the values it applies to, taken from sample files:
+    # the two forms partition the values (none in both, none in neither)
+    import os
+    voc = set(zw.run_cases(["@m=voc"])[0].d["words"])
+    vpairs = sorted(w for w in voc if w.startswith("?") and ("!" + w[1:]) in voc and w not in PAIR)
+    T = os.path.join(common.REPO, "tests")
+    BASES = [("DIE", "entry", os.path.join(T, "nontrivial-types.o")), ("attribute", "entry attribute", os.path.join(T, "nontrivial-types.o")),
+             ("location operation", "entry @AT_location elem", os.path.join(T, "bitcount.o")),
+             ("location operation", "entry @AT_location elem", os.path.join(T, "testfile_const_type")),
+             ("location list element", "entry @AT_location", os.path.join(T, "bitcount.o")),
+             ("symbol", "symbol", os.path.join(T, "y.o")), ("tag constant", "entry label", os.path.join(T, "a1.out")),
+             ("form constant", "entry attribute form", os.path.join(T, "a1.out")), ("address set", "entry @AT_location address", os.path.join(T, "bitcount.o"))]
+    if quick:
+        vsel = [w for k, w in enumerate(vpairs) if k % 3 == ctx.seed % 3 or not w.startswith(("?DW_", "?AT_", "?TAG_", "?FORM_", "?OP_", "?DW"))] + \
+               [w for w in vpairs if w.startswith(("?DW_OP_", "?OP_"))][::2]
+        vsel = sorted(set(vsel))
+    else:
+        vsel = vpairs
+    vq, vmeta = [], []
+    for what, base, f in BASES:
+        if not os.path.exists(f):
+            continue
+        for w in vsel:
+            vq.append(zw.enc("[%s] length" % base, dw=f))
+            vq.append(zw.enc("[%s %s] length" % (base, w), dw=f))
+            vq.append(zw.enc("[%s !%s] length" % (base, w[1:]), dw=f))
+            vmeta.append((what, base, f, w))
+    vr = zw.run_cases(vq)
+    vpairs_run = 0
+    for k, (what, base, f, w) in enumerate(vmeta):
+        rb, ry, rn = vr[3 * k], vr[3 * k + 1], vr[3 * k + 2]
+        if not (rb.ok() and ry.ok() and rn.ok() and rb.results and ry.results and rn.results):
+            continue
+        nb, ny, nn = (int(r.results[0][0]["v"]) for r in (rb, ry, rn))
+        ey = sum(1 for e in ry.d.get("events", []) if e[0] == "e")
+        evaluations += 3
+        vpairs_run += 1
+        if ey == 0 and ny + nn != nb:
+            bad("`%s` holds for %d and `!%s` for %d of the %d values of `%s` on %s: they do not partition them" % (w, ny, w[1:], nn, nb, base, os.path.basename(f)),
+                {"query": "%s %s" % (base, w), "neg": "%s !%s" % (base, w[1:]), "producer": base, "file": f})
+        elif ey and (ny or nn) and ny + nn + ey < nb:
+            bad("`%s` / `!%s` on `%s` (%s): %d + %d hold, %d errors, %d values" % (w, w[1:], base, os.path.basename(f), ny, nn, ey, nb),
+                {"query": "%s %s" % (base, w), "neg": "%s !%s" % (base, w[1:]), "producer": base, "file": f})
     # the same programs against engine model and specification
     stats = {"evaluations": 0, "disagreements": 0, "results_hist": {}, "nontrivial": set()}
     allq = [x for x in uniq if x not in unmodelled]        # the regex engine is not modelled
@@ -154,10 +198,10 @@ def run(ctx):
     ctx.cov.update({
         "evaluations": evaluations + stats["evaluations"],
         "distinct_nontrivial": len(nontrivial),
-        "rule": "metamorphic groups (P; P ?(E); P !(E)), (P; P (E1 op E2)), (P; P let X := E;), (P; P [E]) for 10 producers of several stacks of mixed depth/type and random sub-expressions E (15% ill-typed, i.e. failing), and (P; P ?w; P !w) for every assertion word (incl. ?match/!match and =~/!~ on well-formed and malformed patterns), and sub-expressions that are user-defined words (names bound to blocks that consume, replace, reorder, multiply or leave the stack) in let / ?( ) / !( ) / infix; non-trivial = both the positive and the negative form hold for some stack (or the construct yields); each group checked on the implementation's results, and every program also compared with the engine model and the specification",
+        "rule": "metamorphic groups (P; P ?(E); P !(E)), (P; P (E1 op E2)), (P; P let X := E;), (P; P [E]) for 10 producers of several stacks of mixed depth/type and random sub-expressions E (15% ill-typed, i.e. failing), and (P; P ?w; P !w) for every assertion word (incl. ?match/!match and =~/!~ on well-formed and malformed patterns), every other ?w/!w pair of the vocabulary (DWARF tags/attributes/forms/location operators in both spellings, ?root, ?haschildren, ...) on DIEs, attributes, location operations, symbols and constants of sample files, and sub-expressions that are user-defined words (names bound to blocks that consume, replace, reorder, multiply or leave the stack) in let / ?( ) / !( ) / infix; non-trivial = both the positive and the negative form hold for some stack (or the construct yields); each group checked on the implementation's results, and every program also compared with the engine model and the specification",
         "samples": [cases[0][2], cases[1][2], cases[-1][2]],
         "groups": dict(kinds),
-        "metamorphic_violations": viol,
+        "metamorphic_violations": viol, "vocabulary_pairs_on_dwarf_values": vpairs_run,
         "traces_validated_against_impl": stats["evaluations"],
         "spec_comparison": {k[5:]: v for k, v in stats.items() if k.startswith("spec:")},
         "not_covered": "DWARF stacks (P = DWARF traversals) are exercised by C05/C06 law queries",
